@@ -76,6 +76,11 @@ func (d *DebugDialer) Dial(ctx context.Context, urlstr string) (conn net.Conn, b
 		n := bytes.Index(p, headEnd)
 		h := n + len(headEnd)         // Head end index.
 		n = h + int(resContentLength) // Body end index.
+		if h < len(headEnd) || n > len(p) {
+			// The response was not received completely (the dial or the
+			// handshake failed early). Report what has been received.
+			h, n = len(p), len(p)
+		}
 
 		onResponse(p[:n])
 
